@@ -378,7 +378,12 @@ def _worker(a):
         for k in kinds:
             res["stats"]["edits"][k] = res["stats"]["edits"].get(k, 0) + 1
     # daemon A: old config, some pre-reload traffic, then reload(s)
-    sa = proto.Session(b, cfgs[0], leaks=True)
+    # how the new file gets there: now and then the -f name goes through a symbolic link that is re-pointed (to a file, or one of its
+    # directories), or the first SIGUSR1 after the file was installed fails for want of file descriptors and a second one follows
+    delivery = a.get("delivery")
+    res["stats"]["reloads_through_a_repointed_link"] = 0
+    res["stats"]["reloads_after_a_failed_attempt"] = 0
+    sa = proto.Session(b, cfgs[0], leaks=True, link={"symlink-file": "file", "symlink-dir": "dir"}.get(delivery))
     sb = None
     try:
         pre = random.Random(seed ^ 0x5bd1e995)
@@ -416,8 +421,10 @@ def _worker(a):
             if step == len(cfgs) - 1 and (a.get("directed") == "same-address-across-reload" or seed % 3 == 0):
                 c11.probe(sa, pre, 990, None, ip=first_ip)
                 res["stats"]["same_address_straddles_reload"] = 1
-            sa.d.reload(cfgs[step].text(b["moddir"]))
+            sa.d.reload(cfgs[step].text(b["moddir"]), fail_first=(delivery == "failed-first" and step == len(cfgs) - 1))
             res["stats"]["reloads"] += 1
+            res["stats"]["reloads_through_a_repointed_link"] += 1 if sa.d.link else 0
+            res["stats"]["reloads_after_a_failed_attempt"] += 1 if (delivery == "failed-first" and step == len(cfgs) - 1) else 0
             if step < len(cfgs) - 1:
                 # traffic between two reloads
                 c11.probe(sa, pre, 950 + step, None)
@@ -467,7 +474,7 @@ def _worker(a):
                     "edits: %s\nold config:\n%s\nnew config:\n%s" % (
                         "x%d" % (len(cfgs) - 1), x, y, [ks for _, _, ks in chain[1:]], cfgs[-2].text("<moddir>"), cfgs[-1].text("<moddir>")))
             res["viol"].append(("C17", "stale-" + area, "stale-%s:%s" % (area, "+".join(kinds) or "none"), text,
-                                {"seed": seed, "nreloads": a["nreloads"], "nprobes": nprobes, "npre": a["npre"], "directed": a.get("directed"), "variant": a.get("variant", 0)}))
+                                {"seed": seed, "nreloads": a["nreloads"], "nprobes": nprobes, "npre": a["npre"], "directed": a.get("directed"), "variant": a.get("variant", 0), "delivery": delivery}))
             break
     return res
 
@@ -581,7 +588,8 @@ def run(chk, tier, scale=1.0):
     jobs = []
     for i in range(npairs + ntriples):
         rng = random.Random("c17/%d/%d" % (chk.seed, i))
-        jobs.append(dict(build=b, seed=rng.randrange(1 << 30), nreloads=1 if i < npairs else 2, nprobes=14, npre=rng.choice([0, 2, 4])))
+        jobs.append(dict(build=b, seed=rng.randrange(1 << 30), nreloads=1 if i < npairs else 2, nprobes=14, npre=rng.choice([0, 2, 4]),
+                         delivery={3: "symlink-file", 5: "symlink-dir", 7: "failed-first"}.get(i % 8)))
     for i in range(4 if tier == "quick" else 40):
         rng = random.Random("c17s/%d/%d" % (chk.seed, i))
         jobs.append(dict(build=b, seed=rng.randrange(1 << 30), nreloads=34, nprobes=10, npre=rng.choice([0, 2]), directed="rename-storm" if i % 2 == 0 else "rule-storm"))
@@ -607,6 +615,8 @@ def run(chk, tier, scale=1.0):
                 "probe clients and `? config`; plus directed three-step chains (remove then add a service, remove all then add, change and change back, re-add the same name, swap names, rename a rule and back, remove then re-add a rule / criterion); queued-input runs: the daemon is stopped, the rule file edited, SIGUSR1 sent and 60 short client sessions written to its input before it continues - verdicts before the guarded reload marker must follow the old rules, verdicts after it the new ones (reference evaluator); daemon B is started directly on new and gets the same probes; every probe step's output must be equal (serials normalised, S lines "
                 "and unconfigured '-' entries ignored); distinct = seed of the pair; non-trivial = at least one edit applied")
     chk.require("reloads", 150 * min(1.0, scale))
+    chk.require("reloads_through_a_repointed_link", 20 * min(1.0, scale))
+    chk.require("reloads_after_a_failed_attempt", 10 * min(1.0, scale))
     chk.require("probe_steps_compared", 10000 * min(1.0, scale))
     chk.assumptions += ["clients that are mid-registration across a reload are outside the statement ('arriving afterwards')"]
 
@@ -619,7 +629,7 @@ def replay(chk, rep):
         for v in r["viol"]:
             print(v[3])
         return 1 if r["viol"] else 0
-    r = _worker(dict(build=b, seed=w["seed"], nreloads=w["nreloads"], nprobes=w["nprobes"], npre=w["npre"], directed=w.get("directed"), variant=w.get("variant", 0)))
+    r = _worker(dict(build=b, seed=w["seed"], nreloads=w["nreloads"], nprobes=w["nprobes"], npre=w["npre"], directed=w.get("directed"), variant=w.get("variant", 0), delivery=w.get("delivery")))
     for v in r["viol"]:
         print(v[3])
     return 1 if r["viol"] else 0
